@@ -7,7 +7,7 @@ import (
 )
 
 func main() {
-	p := csim.SimParams{N: 4, Powers: []int64{1, 1, 1, 1}, Byz: []bool{false, false, false, false}, Seed: 1, Steps: 1500, Heights: 2, Prof: os.Args[1]}
+	p := csim.SimParams{N: 4, Powers: []int64{1, 1, 1, 1}, Byz: []bool{false, false, false, os.Args[1] == "byzprop" || os.Args[1] == "byz"}, Seed: 1, Steps: 1500, Heights: 3, Prof: os.Args[1]}
 	csim.Debug = true
 	r := csim.Run(p)
 	fmt.Println("steps", r.Steps, "minheight", r.MinHeight, "maxround", r.MaxRound, "dead", r.Dead, "killed", r.Killed, "delivered", r.Delivered, "tof", r.TimeoutsFired)
